@@ -20,7 +20,7 @@ inline std::string gen_valid_json(Rng& r, int max_depth = 5) {
   if (r.chance(1, 30)) g.long_str = 300;
   MVal v = r.chance(1, 30) ? gen_chain(r, (int)r.range(1, 300), (int)r.below(3)) : gen_value(r, g);
   respell_floats(v, r);
-  RenderOpt ro; ro.random_ws = r.coin(); ro.escape_weight = (int)r.below(5);
+  RenderOpt ro; ro.random_ws = r.coin(); ro.escape_weight = (int)r.range(1, 5);
   std::string t = render_json(v, ro, &r);
   if (g.str_mode == 2) {
     // arbitrary bytes inside strings: make the text keep its quotes balanced by escaping quote/backslash only (done by the renderer)
